@@ -1366,6 +1366,10 @@ func checkRejections(out *simkit.Outcome, sc *pw.Scenario, res []*result, t *tre
 		var ise *slug.IllegalSlugError
 		if r.err == nil {
 			out.Violate("C05", "out-link-accepted", "accepted", fmt.Sprintf("run %d: tree has out-of-tree link(s) %v, dereference is off, nothing allow-listed, yet Pack succeeded", i, bad))
+		} else if errors.Is(r.err, os.ErrPermission) {
+			// the walk did not get as far as the link: a directory on the way cannot be searched by
+			// this user (the hostile profile makes such trees); a failure reported as a failure
+			out.Probe("pack-stopped-by-permissions-before-the-link")
 		} else if !errors.As(r.err, &ise) {
 			// a failure before the link is reached (unreadable file etc.) would be legitimate,
 			// but generated trees have none for the running uid
